@@ -14,6 +14,11 @@ package main
 //     after a random delay.  Oracles (trim_partial_safe): every one-day-old file and every
 //     foreign file is there, only six-day-old entries are gone, and unless the trim finished
 //     trim.txt is unchanged; a Trim run afterwards (trim_resume) removes exactly the rest.
+//   record-locked: a trim completed an hour ago (trim.txt says so); stale entries exist.  The
+//     record is being rewritten the way every Trim rewrites it -- lockedfile.Write: take the
+//     write lock, truncate, write -- and is held in the truncated state for a while; a Trim in
+//     another process starts meanwhile.  "Does nothing at all if a trim completed less than a
+//     day ago": it must wait for the record and then leave every file where it is.
 
 import (
 	"bufio"
@@ -27,6 +32,7 @@ import (
 	"time"
 
 	"github.com/rogpeppe/go-internal/cache"
+	"github.com/rogpeppe/go-internal/lockedfile"
 
 	"verif/harness/common"
 )
@@ -305,6 +311,75 @@ func (rn *runner) killedRound(r *common.RNG, round int) {
 	rn.res.Count("killed:rounds")
 }
 
+func (rn *runner) lockedRound(r *common.RNG, round int) {
+	dir, err := os.MkdirTemp(rn.work, "lock")
+	if err != nil {
+		return
+	}
+	defer os.RemoveAll(dir)
+	n := 60
+	ents, err := rn.procPopulation(dir, 500000+round*10000, n, func(int) time.Duration { return 6*24*time.Hour + time.Duration(round)*time.Hour })
+	if err != nil {
+		rn.res.Notes = append(rn.res.Notes, "record-locked round: setup failed: "+err.Error())
+		return
+	}
+	trimPath := filepath.Join(dir, "trim.txt")
+	// a trim completed an hour (round 0), 23 hours (round 1), a minute (round 2) ... ago
+	ago := []time.Duration{time.Hour, 23 * time.Hour, time.Minute, 12 * time.Hour}[round%4]
+	record := []byte(strconv.FormatInt(time.Now().Add(-ago).Unix(), 10))
+	if err := os.WriteFile(trimPath, record, 0o666); err != nil {
+		return
+	}
+	// the writer of the record: lock, truncate (what lockedfile.Write does), hold, write, unlock
+	f, err := lockedfile.OpenFile(trimPath, os.O_WRONLY|os.O_CREATE|os.O_TRUNC, 0o666)
+	if err != nil {
+		rn.res.Notes = append(rn.res.Notes, "record-locked round: cannot lock trim.txt: "+err.Error())
+		return
+	}
+	hold := time.Duration(150+r.Intn(250)) * time.Millisecond
+	done := make(chan struct{})
+	go func() {
+		time.Sleep(hold)
+		f.Write(record)
+		f.Close()
+		close(done)
+	}()
+	var buf bytes.Buffer
+	cmd := helperCmd("trim", dir, nil)
+	cmd.Stdout = &buf
+	start := time.Now()
+	rerr := cmd.Run()
+	took := time.Since(start)
+	<-done
+	if rerr != nil || !strings.Contains(buf.String(), "trim-ok") {
+		rn.procFinding("correspondence", "locked/trim", "locked-trim-failed", "the trimming process said: "+buf.String())
+	}
+	gone := 0
+	var first string
+	for _, e := range ents {
+		for _, p := range []string{e.pa, e.pd} {
+			if _, there := fileAge(p, time.Now()); !there {
+				gone++
+				if first == "" {
+					first = filepath.Base(p)
+				}
+			}
+		}
+	}
+	rec, _ := os.ReadFile(trimPath)
+	if gone > 0 {
+		rn.procFinding("impl-violation", "locked/recent-trim-noop", "trim-during-record-write",
+			fmt.Sprintf("trim.txt recorded a trim completed %v ago (%q before, %q after); while that record was being rewritten under its lock (lock, truncate, %v, write -- the steps of lockedfile.Write) a Trim in another process ran for %v and removed %d files (first: %s) although a trim completed less than a day ago", ago, record, rec, hold, took.Round(time.Millisecond), gone, first))
+	}
+	rn.res.Case(fmt.Sprintf("locked-round %d", round), true)
+	rn.res.Count("locked:rounds")
+	if took >= hold-20*time.Millisecond {
+		rn.res.Count("locked:trim-waited-for-the-record")
+	} else {
+		rn.res.Count("locked:trim-did-not-wait")
+	}
+}
+
 func bucketFrac(a, n int) string {
 	switch {
 	case a == 0:
@@ -337,5 +412,12 @@ func (rn *runner) processBlocks(r *common.RNG, nConc, nKill int) {
 	}
 	for i := 0; i < nKill; i++ {
 		rn.killedRound(r, i)
+	}
+	nLock := 4
+	if nKill > 20 {
+		nLock = 40
+	}
+	for i := 0; i < nLock; i++ {
+		rn.lockedRound(r, i)
 	}
 }
